@@ -30,7 +30,9 @@ ASSUMPTIONS = ["tokens are located in the output by literal search modulo inner 
 TOK = ["aa", "Bb.", "a", "{% t %}", "{% /t %}", '{% t a="x y" %}', "{{ v }}", "{# c #}", "<!-- c -->", "<!-- /c -->", "{% t\nb %}",
        "`c d`", "[l k](u)", "<b>", "**s**", '<a href="x y">',
        # appended later (indices above are referenced by known/C06.txt)
-       "`` `x y` ``", "``x ` y``", "[l k][r s]", '![i j](u "t v")']
+       "`` `x y` ``", "``x ` y``", "[l k][r s]", '![i j](u "t v")',
+       # appended later: a sentence end INSIDE the construct (semantic mode must not take it for a place to break)
+       '{% t a="Xx yyyy. Zz" %}', "`code dddd eeee. Ff`", "[link kkkk mmmm. Nn](u)", "<!-- c dddd eeee. Ff -->", '<a title="Xxxx yyyy. Zz">']
 REPS = [TOK.index(t) for t in ("aa", "Bb.", "{% t %}", "{% /t %}", "<!-- c -->", "`c d`", "[l k](u)", "{{ v }}")]
 ATOMIC = {i for i, t in enumerate(TOK) if i >= 3}
 _TAGS = {i for i, t in enumerate(TOK) if re.match(r"^(\{%|\{#|\{\{|<!--)", t)}
@@ -244,6 +246,7 @@ def spaces(tier):
                      valid=valid, floors={"adjacency": 500, "atomic-wider-than-width": 500, "tag-alone-on-line": 50})
     tag = TOK.index("{% t %}")
     para.class_rep = {i: tag for i in _TAGS if i != tag}
+    para.class_rep[TOK.index("<!-- c dddd eeee. Ff -->")] = TOK.index("<!-- c -->")   # (a comment is not adjacent-paired with a {% %} tag)
     # runs of up to 4 (quick) / 5 tags with every mix of adjacent / separated boundaries: several boundaries of the same kind
     # in one paragraph, every critical width (a line break AT an earlier boundary must not disturb a later one)
     runs = ParaSpace("C06", "tag-runs", TOK_RUNS, 4 if q else 5, oracle, ctx, sepnames=("adj", "sp"), full_upto=3 if q else 4, reps=[0, 1, 2],
